@@ -188,11 +188,28 @@ def c19(run):
                       "+ recorded histories in which calls really overlapped.")
 
 
+def c20(run):
+    run.model("MCParallel.tla", "MCParallel_ok.cfg", note="3 processes x 3 operations, side process toggling an unrelated registry name: NonInterference")
+    run.model("MCParallel.tla", "MCParallel_dev_scratch.cfg", expect="NonInterference")
+    run.model("MCParallel.tla", "MCParallel_dev_clear.cfg", expect="NonInterference")
+    run.parallel("roundtrip-canon", Q(run, 2, 12), goroutines=16, rounds=Q(run, 1, 3))
+    run.parallel("history", Q(run, 40, 300), goroutines=16, rounds=Q(run, 2, 4), seed_off=100, small=True,
+                 types=["sse.SseBinary", "szse.SzseBinary", "risk.RcBinary", "sample.RootPacket", "bse.BjseBinary"])
+    run.parallel("stream", Q(run, 1, 6), goroutines=8, rounds=1, seed_off=200)
+    run.assumptions += ["hidden shared state is found by the race detector and by results that differ from the solo run under contention: with high but not certain probability",
+                        "discriminator tables and checksum services are only read after start-up (the side goroutines register/remove unrelated names only)"]
+    return run.finish("design model: Parallel.tla (NonInterference; deviations SharedScratch and ClearOnSide must fail). B: the drivers' histories (all 170 types, "
+                      "frames with every registered body, streams) are run alone and then by 8-16 goroutines at once, each on its own objects and buffers, "
+                      "with two side goroutines doing Get/Registry/Remove on unrelated names, built with -race; TLC validates every parallel event with the "
+                      "sequential trace specification (C01/C06/C07 clauses) and requires it to equal its twin of the solo run. distinct_nontrivial = distinct "
+                      "(type, operation, outcome) triples among the parallel events.")
+
+
 def all_types():
     return sorted(json.load(open(SCHEMA))["types"].keys())
 
 
-CHECKS = {"C19": c19, "C03": c03, "C09": c09, "C10": c10, "C13": c13, "C14": c14, "C18": c18, "C01": c01, "C02": c02, "C04": c04, "C05": c05, "C06": c06, "C07": c07, "C08": c08, "C11": c11, "C12": c12,
+CHECKS = {"C19": c19, "C20": c20, "C03": c03, "C09": c09, "C10": c10, "C13": c13, "C14": c14, "C18": c18, "C01": c01, "C02": c02, "C04": c04, "C05": c05, "C06": c06, "C07": c07, "C08": c08, "C11": c11, "C12": c12,
           "C15": c15, "C16": c16, "C17": c17}
 
 
